@@ -106,10 +106,17 @@ func genValidLayout(r *Rng, maxN int) ([]byte, mp4synth.Tables) {
 	}
 	// stts: arbitrary deltas, split into runs (merging equal neighbours or not)
 	var deltas []uint32
+	huge := 0
 	for i := 0; i < n; i++ {
-		if i > 0 && r.Chance(0.5) {
+		switch {
+		case i > 0 && r.Chance(0.5):
 			deltas = append(deltas, deltas[i-1])
-		} else {
+		case r.Chance(0.1):
+			deltas = append(deltas, 0) // a zero-length sample (legal, muxers write it for the last one)
+		case r.Chance(0.06) && t.Timescale >= 1000 && huge < 2:
+			huge++
+			deltas = append(deltas, uint32(3000000000+r.Intn(1000000000))) // the running media time passes 2^32 ticks
+		default:
 			deltas = append(deltas, uint32(1+r.Intn(5000)))
 		}
 	}
